@@ -57,6 +57,7 @@ func runStress(dir string, seed uint64, tier string) {
 			AcceptTimeout: 50 * time.Millisecond, CompleteTimeout: 50 * time.Millisecond})}
 		r.boot()
 		r.register("T1")
+		r.defaultVal = &valSpec{Accepted: true}
 		ctx := context.Background()
 		var known sync.Map // channel ids seen so far
 		var nknown int64
@@ -274,6 +275,49 @@ func runStress(dir string, seed uint64, tier string) {
 								guard("OnDataSent(hot)", func() { _ = r.handler.OnDataSent(pushID, link, 10, idx, true) })
 							default:
 								guard("OnDataReceived(hot)", func() { _ = r.handler.OnDataReceived(pullID, link, 10, idx, true) })
+							}
+						}
+					}(w)
+				}
+				hot.Wait()
+			}
+		}
+		// then data-limit updates against block reports: two channels a remote peer opened towards us receive
+		// blocks from all workers while their limits are raised again and again (the limit cache is shared by
+		// all channels of the manager)
+		{
+			var lim []datatransfer.ChannelID
+			for i, tid := range []uint64{61, 62} {
+				m := r.realMsg(newReq(tid, false))
+				from := peerOf(2 + i)
+				r.receiver.ReceiveRequest(ctx, from, m.(datatransfer.Request))
+				id := datatransfer.ChannelID{Initiator: from, Responder: r.self, ID: datatransfer.TransferID(tid)}
+				if _, err := r.mgr.ChannelState(ctx, id); err == nil {
+					lim = append(lim, id)
+					addChan(id)
+				}
+			}
+			if len(lim) == 2 {
+				link := cidlink.Link{Cid: cidOf(1)}
+				for _, id := range lim {
+					_ = r.handler.OnDataReceived(id, link, 1, 1, true) // the first block creates the channel's cache entry
+				}
+				var next int64 = 1
+				var hot sync.WaitGroup
+				for w := 0; w < nworkers; w++ {
+					hot.Add(1)
+					go func(w int) {
+						defer hot.Done()
+						for i := 0; i < 30; i++ {
+							id := lim[(w+i)%2]
+							if w < 2 {
+								limit := uint64(1<<40 + w*1000 + i)
+								guard("UpdateValidationStatus(limit)", func() {
+									_ = r.mgr.UpdateValidationStatus(ctx, id, datatransfer.ValidationResult{Accepted: true, DataLimit: limit})
+								})
+							} else {
+								idx := atomic.AddInt64(&next, 1)
+								guard("OnDataReceived(limit)", func() { _ = r.handler.OnDataReceived(id, link, 10, idx, true) })
 							}
 						}
 					}(w)
